@@ -4,6 +4,7 @@ import (
 	"flag"
 	"fmt"
 	"os"
+	"path/filepath"
 	"sort"
 	"strconv"
 	"strings"
@@ -40,6 +41,8 @@ func main() {
 		devMain(os.Args[2:])
 	case "run":
 		runMain(os.Args[2:])
+	case "digests":
+		digestsMain(os.Args[2:])
 	case "replay":
 		replayMain(os.Args[2:])
 	default:
@@ -179,4 +182,45 @@ func coarse(sig string) string {
 		segs = append(segs, s)
 	}
 	return strings.Join(segs, "|")
+}
+
+// digestsMain prints one line per (property, mode, seed): the trace digest of
+// the generated run and of the replay of its recorded scenario. Used by the
+// determinism self-test (tools/selftest.sh), which runs it in many processes
+// with different GOMAXPROCS and diffs the output.
+func digestsMain(args []string) {
+	fs := flag.NewFlagSet("digests", flag.ExitOnError)
+	n := fs.Int("n", 6, "seeds per mode")
+	seed := fs.Uint64("seed", 777, "")
+	props := fs.String("props", "C06,C03,C04,C02,C13,C05,C12,C18,C09,C15", "")
+	fs.Parse(args)
+	bin := filepath.Join(verifDir, "build", "ergo")
+	if tf := os.Getenv("SIM_TRACE"); tf != "" {
+		traceFile, _ = os.Create(tf)
+		defer traceFile.Close()
+	}
+	for _, prop := range strings.Split(*props, ",") {
+		plan := planFor(prop)
+		for mi := range plan.Modes {
+			mode := &plan.Modes[mi]
+			for i := 0; i < *n; i++ {
+				s := mix64(*seed, hashStr(prop+"/"+mode.Name)+uint64(i))
+				rep := safeRun(func() *RunReport { return mode.Run(bin, s) })
+				if rep.Harness != "" {
+					fmt.Printf("%s %s %d HARNESS %s\n", prop, mode.Name, i, rep.Harness)
+					continue
+				}
+				line := fmt.Sprintf("%s %s %d gen=%s viol=%d", prop, mode.Name, i, rep.Digest[:16], len(rep.V))
+				if mode.Name == "seq" || mode.Name == "fork" || mode.Name == "layout" || mode.Name == "corrupt" {
+					// whole-scenario replay must give the same trace
+					rp := safeRun(func() *RunReport { return mode.Replay(bin, rep.Sc) })
+					line += " replay=" + rp.Digest[:16]
+					if rp.Digest != rep.Digest {
+						line += " MISMATCH"
+					}
+				}
+				fmt.Println(line)
+			}
+		}
+	}
 }
